@@ -107,3 +107,73 @@ def static_mutex_keys(program):
             if good:
                 fnkeys[(f.get('_qn') or f.get('name')) + '()'] = f
     return out, fnkeys
+
+
+def is_internal(f):
+    """Internal linkage: a free function declared static or inside an unnamed namespace
+    (only code of this translation unit can call it)."""
+    if f.get('kind') != 'FunctionDecl':
+        return False
+    if f.get('storageClass') == 'static':
+        return True
+    p = f.get('_p')
+    while p is not None:
+        if p.get('kind') == 'NamespaceDecl' and not p.get('name'):
+            return True
+        p = p.get('_p')
+    return False
+
+
+def _address_taken(u, f):
+    """Is the function named anywhere other than as the callee of a direct call?"""
+    ids = set([f.get('id'), f.get('previousDecl')]) - {None}
+    for d in u.walk():
+        if d.get('kind') == 'FunctionDecl' and d.get('previousDecl') in ids:
+            ids.add(d.get('id'))
+    for x in u.walk():
+        if x.get('kind') == 'DeclRefExpr' and (x.get('referencedDecl') or {}).get('id') in ids:
+            p = x.get('_p')
+            while p is not None and p.get('kind') in ('ImplicitCastExpr', 'ParenExpr'):
+                p = p.get('_p')
+            if p is None or p.get('kind') not in ('CallExpr',):
+                return True
+            c = callee(p)
+            if not (c and c[0] == 'fn' and c[1].get('id') in ids):
+                return True
+    return False
+
+
+def entry_held(G, is_static_mutex_key):
+    """Static mutexes held on entry to each internal-linkage helper: the intersection, over all
+    of its call sites, of the mutexes held at the site (RAII regions of the caller, plus what
+    the caller itself is entered with).  Functions with external linkage, with no call site or
+    whose address is taken are entered with nothing held."""
+    TOP = None
+    sites = {}
+    for k, es in G.edges.items():
+        for (kind, tgt, site) in es:
+            if kind in ('direct', 'virtual', 'lambda') and tgt in G.defs:
+                sites.setdefault(tgt, []).append((k, site))
+    lrs = {}
+    cand = set(k for k, (u, f) in G.defs.items() if is_internal(f) and sites.get(k) and not _address_taken(u, f))
+    held = {k: (TOP if k in cand else frozenset()) for k in G.defs}
+
+    def lr_of(k):
+        if k not in lrs:
+            u, f = G.defs[k]
+            lrs[k] = LockRegions(u, f)
+        return lrs[k]
+    changed = True
+    while changed:
+        changed = False
+        for k in cand:
+            acc = TOP
+            for (ck, site) in sites[k]:
+                if held[ck] is TOP:
+                    continue        # caller still unknown: optimistic
+                here = frozenset(mk for (mk, g) in lr_of(ck).held_at(site) if is_static_mutex_key(mk)) | held[ck]
+                acc = here if acc is TOP else (acc & here)
+            if acc is not TOP and acc != held[k]:
+                held[k] = acc
+                changed = True
+    return {k: (v if v is not None else frozenset()) for k, v in held.items()}
